@@ -19,21 +19,21 @@ REG['C01'] = {
         'SolarMonth::new', 'SolarMonth::get_day_count', 'SolarYear::new', 'SolarYear::get_day_count', 'SolarYear::is_leap',
     ],
     'K': [
-        dict(id='c01_k1_ymd2jd', sliced=True, quick='all', fn='JulianDay::from_ymd_hms',
+        dict(id='c01_k1_ymd2jd', paired_leaf=dict(check='c01_calendar_years', range=(1, 9999), chunks=32), sliced=True, quick='all', fn='JulianDay::from_ymd_hms',
              clause='contract: from_ymd_hms(y,m,d,0,0,0).day == jdn(y,m,d) - 0.5 for all 0<=y<=10000, 1<=m<=12, 1<=d<=31'),
-        dict(id='c01_k3q_jd2ymd', sliced=True, quick=dict(boundary=[0, 'v:1582', 'v:1900', -1], sample=12), fn='JulianDay::get_solar_time',
+        dict(id='c01_k3q_jd2ymd', paired_leaf=dict(check='c01_calendar_years', range=(1, 9999), chunks=32), sliced=True, quick=dict(boundary=[0, 'v:1582', 'v:1900', -1], sample=12), fn='JulianDay::get_solar_time',
              clause='for every valid date d: get_solar_time(jdn(d) - 0.5) == d at 00:00:00 (with V2 surjectivity: the inverse conversion for every day number in range)'),
-        dict(id='c01_k3_jd2ymd', sliced=True, thorough_only=True, fn='JulianDay::get_solar_time',
+        dict(id='c01_k3_jd2ymd', paired_leaf=dict(check='c01_calendar_years', range=(1, 9999), chunks=32), sliced=True, thorough_only=True, fn='JulianDay::get_solar_time',
              clause='contract: for every integer day number n of 0001-01-01..9999-12-31, get_solar_time(n-0.5) is a valid date at 00:00:00 with jdn == n'),
-        dict(id='c01_k2_day_accept', fn='SolarDay::new', clause='SolarDay::new(y,m,d).is_ok() == valid_date(y,m,d) for all y in 1..9999, m in 1..12, every usize d'),
+        dict(id='c01_k2_day_accept', paired_leaf=dict(check='c01_calendar_years', range=(1, 9999), chunks=32), fn='SolarDay::new', clause='SolarDay::new(y,m,d).is_ok() == valid_date(y,m,d) for all y in 1..9999, m in 1..12, every usize d'),
         dict(id='c01_k2_month_year_refuse', fn='SolarMonth::new / SolarYear::new', clause='months outside 1..12 and years outside 1..9999 are refused (Err)'),
         dict(id='c01_k2_bad_month_year_panics', expect='panic_all', fn='SolarDay::new', clause='SolarDay::new refuses (panics) for every (y,m) outside 1..9999 x 1..12'),
-        dict(id='c01_k4_subtract', fn='SolarDay::subtract', clause='a.subtract(b) == jdn(a) - jdn(b) for all pairs of valid dates (stub_verified from_ymd_hms)'),
-        dict(id='c01_k5_next', thorough_only=True, fn='SolarDay::next', clause='jdn(a.next(n)) == jdn(a) + n and the result is valid, for all a, n with the result in range (both conversion contracts)'),
-        dict(id='c01_k3_roundtrip_by_contract', thorough_only=True, fn='SolarDay::get_julian_day / JulianDay::get_solar_day', clause='date -> day count -> date keeps the day number and validity'),
+        dict(id='c01_k4_subtract', paired_leaf=dict(check='c01_calendar_years', range=(1, 9999), chunks=32), fn='SolarDay::subtract', clause='a.subtract(b) == jdn(a) - jdn(b) for all pairs of valid dates (stub_verified from_ymd_hms)'),
+        dict(id='c01_k5_next', paired_leaf=dict(check='c01_calendar_years', range=(1, 9999), chunks=32), thorough_only=True, fn='SolarDay::next', clause='jdn(a.next(n)) == jdn(a) + n and the result is valid, for all a, n with the result in range (both conversion contracts)'),
+        dict(id='c01_k3_roundtrip_by_contract', paired_leaf=dict(check='c01_calendar_years', range=(1, 9999), chunks=32), thorough_only=True, fn='SolarDay::get_julian_day / JulianDay::get_solar_day', clause='date -> day count -> date keeps the day number and validity'),
         dict(id='c01_k6_order', fn='SolarDay::is_before / is_after / eq', clause='strict lexicographic order on (y,m,d)'),
-        dict(id='c01_k7_lengths', fn='SolarMonth::get_day_count, SolarYear::get_day_count / is_leap', clause='== month_len / year_len / is_leap_civil of the calendar spec'),
-        dict(id='c01_k7_day_of_year', thorough_only=True, fn='SolarDay::get_index_in_year', clause='== jdn(date) - jdn(y,1,1)'),
+        dict(id='c01_k7_lengths', paired_leaf=dict(check='c01_calendar_years', range=(1, 9999), chunks=32), fn='SolarMonth::get_day_count, SolarYear::get_day_count / is_leap', clause='== month_len / year_len / is_leap_civil of the calendar spec'),
+        dict(id='c01_k7_day_of_year', paired_leaf=dict(check='c01_calendar_years', range=(1, 9999), chunks=32), thorough_only=True, fn='SolarDay::get_index_in_year', clause='== jdn(date) - jdn(y,1,1)'),
     ],
     'V': [
         dict(id='c01_v_calendar', template='verus/c01_calendar.rs',
